@@ -233,6 +233,11 @@ fn set_ops_exhaustive(bits: u32, out: &mut Vec<Failure>) -> u64 {
 }
 
 pub fn search(seed: u64, full: bool) -> SearchResult {
+    search_opts(seed, full, true)
+}
+
+/// `sets = false`: label operations only (what the tree proofs of C05 rely on), not the AzksElementSet operations
+pub fn search_opts(seed: u64, full: bool, sets: bool) -> SearchResult {
     std::panic::set_hook(Box::new(|_| {}));
     let mut out = vec![];
     let mut n = 0u64;
@@ -300,7 +305,9 @@ pub fn search(seed: u64, full: bool) -> SearchResult {
         }
         if out.len() > 50 { break; }
     }
-    n += set_ops_exhaustive(if full { 4 } else { 3 }, &mut out);
+    if sets {
+        n += set_ops_exhaustive(if full { 4 } else { 3 }, &mut out);
+    }
     let _ = std::panic::take_hook();
     SearchResult { evaluations: n, failures: out,
         summary: format!("BOUNDED set operations: all multisets of <= 3 equal-length labels of <= 3/4 bits x every common prefix; all label pairs up to {maxbits} bits (canonical and with stray bits) x {{is_prefix_of, lcp (both configurations), get_prefix_ordering, cmp}}, get_bit_at/get_prefix on each; all lengths 8k-1, 8k, 8k+1 with patterns 00 ff aa 55 80 01 and related labels") }
